@@ -1,7 +1,7 @@
 (* Entry points for C13 (serialisation). *)
 From Coq Require Import String NArith List Bool.
 From GF Require Import Base.Res Base.Bytes Base.Layout Base.Gen Model.Msg Model.Packet Model.ProdNF Model.Pipe
-     Model.Pb Model.Json Spec.GenPipe Spec.EncSFlow Drivers.D06 Drivers.D10.
+     Model.Pb Model.Json Model.Render Spec.GenPipe Spec.EncSFlow Drivers.D06 Drivers.D10.
 Import ListNotations.
 Local Open Scope string_scope.
 Open Scope N_scope.
@@ -10,7 +10,8 @@ Definition show_step_bin (r : res stepres) : list tok * N :=
   match r with
   | Ok (_, o, ms) =>
       (show_outcome o :: TN (lenN ms) ::
-         flat_map (fun m => [TS "b"; TB (frame (pb_encode m)); TS "jsonok"; TS "keysok"; TS "agree"]) ms, lenN ms)
+         flat_map (fun m => [TS "b"; TB (frame (pb_encode m)); TS "j"; TB (json_default m); TS "t"; TB (text_default m);
+                             TS "jsonok"; TS "keysok"; TS "agree"]) ms, lenN ms)
   | Err e => ([err_tok e], 0) | Panic => ([TS "panic"], 0) | OutOfFuel => ([TS "fuel"], 0)
   end.
 
